@@ -475,7 +475,9 @@ fn collect_runtime_types(
             // The vtable of a trait used behind `dyn` spells out its method signatures.
             for trait_def in goenv.genv.trait_env.trait_defs.values() {
                 for scheme in trait_def.methods.values() {
-                    self.collect_type(&scheme.ty);
+                    if scheme.is_dyn_dispatchable() {
+                        self.collect_type(&scheme.ty);
+                    }
                 }
             }
             (self.tuples, self.arrays, self.refs)
